@@ -755,22 +755,85 @@ theorem compileAll_hasFunc {o : Opts} {G : Grammar} (hinl : o.inline = false) (n
     rw [compileAll_eq]
     exact compileRules_find_isSome hinl _ _ _ n G.rules _ r hf h.1 h.2
 
+/-- A rule body is what the first pass and `link` leave: the rule's implicit push, or `nil` for a
+    stub (undefined name, `PegText`). -/
+def Rule.shaped (r : Rule) : Bool :=
+  match r.body with
+  | .nil => true
+  | .ipush _ nm => nm == r.name
+  | _ => false
+
+/-- Shape of a linked grammar: implicit-push bodies and pairwise distinct rule ids (memo keys). -/
+def LinkedOK (G : Grammar) : Bool :=
+  G.rules.all Rule.shaped && decide ((G.rules.map (·.id)).Nodup)
+
+theorem LinkedOK.shape {G : Grammar} (h : LinkedOK G = true) {n : String} {r : Rule}
+    (hf : G.find n = some r) (hnil : r.body.isNil = false) : ∃ e, r.body = .ipush e n := by
+  unfold Grammar.find at hf
+  have hmem := List.mem_of_find?_eq_some hf
+  have hname : r.name = n := by simpa using List.find?_some hf
+  have hs : r.shaped = true := by
+    simp only [LinkedOK, Bool.and_eq_true] at h
+    exact List.all_eq_true.mp h.1 r hmem
+  unfold Rule.shaped at hs
+  cases hb : r.body <;> simp [hb, Expr.isNil] at hs hnil
+  next e nm => exact ⟨e, by rw [hs, hname]⟩
+
+theorem nodup_map_inj {α β} [DecidableEq β] (f : α → β) : ∀ (l : List α), (l.map f).Nodup →
+    ∀ a ∈ l, ∀ b ∈ l, f a = f b → a = b
+  | [], _, a, ha, _, _, _ => by cases ha
+  | x :: xs, h, a, ha, b, hb, hab => by
+    simp only [List.map_cons, List.nodup_cons, List.mem_map, not_exists, not_and] at h
+    rcases List.mem_cons.mp ha with ha' | ha' <;> rcases List.mem_cons.mp hb with hb' | hb'
+    · rw [ha', hb']
+    · rw [ha'] at hab; exact absurd hab.symm (h.1 b hb')
+    · rw [hb'] at hab; exact absurd hab (h.1 a ha')
+    · exact nodup_map_inj f xs h.2 a ha' b hb' hab
+
+theorem LinkedOK.idInj {G : Grammar} (h : LinkedOK G = true) {n1 n2 : String}
+    (h1 : (G.find n1).isSome = true) (h2 : (G.find n2).isSome = true)
+    (hid : G.idOf n1 = G.idOf n2) : n1 = n2 := by
+  obtain ⟨r1, hf1⟩ := Option.isSome_iff_exists.mp h1
+  obtain ⟨r2, hf2⟩ := Option.isSome_iff_exists.mp h2
+  simp only [Grammar.idOf, hf1, hf2, Option.map_some, Option.getD_some] at hid
+  have hf1' := hf1
+  have hf2' := hf2
+  unfold Grammar.find at hf1' hf2'
+  have m1 := List.mem_of_find?_eq_some hf1'
+  have m2 := List.mem_of_find?_eq_some hf2'
+  have e1 : r1.name = n1 := by simpa using List.find?_some hf1'
+  have e2 : r2.name = n2 := by simpa using List.find?_some hf2'
+  simp only [LinkedOK, Bool.and_eq_true, decide_eq_true_eq] at h
+  have := nodup_map_inj (·.id) G.rules h.2 r1 m1 r2 m2 hid
+  rw [← e1, ← e2, this]
+
 /-- The structural assumptions of the refinement theorem hold for the program `compileAll` emits
     for a `GrammarOK` grammar (`-inline` off; `-switch` is a rewrite of `G` that `GrammarOK`
     excludes by forbidding `ualt`, so `o.switch` itself is irrelevant). -/
 theorem compileAll_world {G : Grammar} {o : Opts} {cfg : Cfg} {inp : List Sym}
     (_hsw : o.switch = false) (hinl : o.inline = false) (hast : o.ast = true)
-    (hcfg : cfg.ast = true) (hmemo : cfg.memo = false)
+    (hcfg : cfg.ast = true)
     (hinp : ∀ c ∈ inp, c ≠ END)
-    (hG : GrammarOK G)
+    (hG : GrammarOK G) (hL : LinkedOK G = true)
     (halways : ∀ n, alwaysSucceeds G n = true →
       ∀ p evs, ¬ Eval G cfg.rho inp (.name n) p .fail evs) :
     World (compileAll o G) cfg (realEnv o G) G inp where
   ast := hcfg
   envAst := hast
-  nomemo := hmemo
   inpOK := hinp
   always := halways
+  idInj := by
+    intro n1 n2 h1 h2 hid
+    have g : ∀ n, ((compileAll o G).find n).isSome = true → (G.find n).isSome = true := by
+      intro n hn
+      obtain ⟨cr, hfind⟩ := Option.isSome_iff_exists.mp hn
+      rw [compileAll_eq] at hfind
+      obtain ⟨r, ko, sw, hr, _⟩ :=
+        compileRules_find (env' := dryEnv o G) (rfl : (realEnv o G).always = (dryEnv o G).always)
+          n G.rules ⟨0, 0⟩ cr hfind
+      have hfindG : G.find n = some r := hr
+      rw [hfindG]; rfl
+    exact LinkedOK.idInj hL (g n1 h1) (g n2 h2) hid
   rules := by
     intro n cr hfind
     rw [compileAll_eq] at hfind
@@ -790,19 +853,21 @@ theorem compileAll_world {G : Grammar} {o : Opts} {cfg : Cfg} {inp : List Sym}
       have := GrammarOK.rule hG hfindG
       simpa [ruleOK, hnil, hcnt] using this
     refine ⟨r, r.body, ko, ⟨ko + 1, sw⟩, by simp [Grammar.body, hfindG], hcr,
-      Nat.lt_succ_self ko, ?_, ?_, ?_⟩
+      Nat.lt_succ_self ko, ?_, ?_, ?_, ?_, ?_⟩
     · rw [hcr]; exact ruleFunc_uniq _ _ _ _ _ (Nat.lt_succ_self ko)
     · intro l hl
       have := hj (okB_noUalt _ _ hok) l hl
       simpa [realEnv, dryJumps] using this
     · exact okB_fine (fun m hm => compileAll_hasFunc hinl m hm) _ hok
+    · simp [Grammar.idOf, hfindG]
+    · exact LinkedOK.shape hL hfindG hnil
 
 /-! Non-vacuity: `GrammarOK` holds of the example grammar of `Props/C01.lean` (`exG`). -/
 def linkExG : Grammar := { rules := [
   { name := "S", id := 0, body := .ipush (.seq [.star (.alt [.name "A", .chr 98]), .peekNot .dot]) "S" },
   { name := "A", id := 1, body := .ipush (.push (.chr 97) "PegText") "A" }] }
 
-example : GrammarOK linkExG = true := by decide
+example : GrammarOK linkExG = true ∧ LinkedOK linkExG = true := by decide
 
 /-- … and it is not trivially true: a reference to a stub (`nil`) rule is rejected. -/
 example : GrammarOK { rules := [
